@@ -1040,4 +1040,389 @@ theorem expectedSeq_eq (E : List Rcd) : ∀ n : Nat,
     | zero => simp [expectedSeq]
     | succ n => simp only [expectedSeq, ih n]; simp
 
+/-! ### Arbitrary judges -/
+
+section Generic
+variable (p : Params)
+
+/-- A judge never answers `SkipRecord` for an empty range (a delimiter seen while
+looking for the start of a record).  `chunk_judge` satisfies it; a judge that
+does not makes `next_record_bytes` fail its first assertion (see the example in
+`Props/C06.lean`). -/
+def JudgeOK (judge : Judge) : Prop := ∀ h c, c.start = c.stop → judge h c ≠ .skipRecord
+
+/-- `RInv` without the parts that depend on the judge. -/
+structure GInv (off : Nat) (rc : Rec) (cur : List UInt8) : Prop where
+  idle : rc.st = .skipSentinel → rc.start = rc.stop ∧ cur = [] ∧ rc.emits = [] ∧ rc.dec = .initial
+  busy : rc.st ≠ .skipSentinel → rc.start + cur.length = off ∧ rc.stop = off ∧ cur ≠ []
+  dec : rc.st = .decodeRecord → ∃ ds, ds.flatten = cur ∧ (∀ d ∈ ds, d ≠ []) ∧ After p ds rc
+
+theorem ginv_fresh (off : Nat) : GInv p off Rec.fresh [] where
+  idle := fun _ => ⟨rfl, rfl, rfl, rfl⟩
+  busy := fun h => absurd rfl h
+  dec := fun h => by simp [Rec.fresh] at h
+
+/-- A finished call: `None`, or one of the records still expected, with what
+follows it expected of the later calls. -/
+def GDone (E : List Rcd) (res : NextRes) (off' : Nat) (after : List UInt8) : Prop :=
+  res = .none ∨ ∃ pre d a b, E = pre ++ (d, a, b) :: recordsAll p (segScan off' [] after) ∧ res = .some d a b
+
+def GStep (s1 : RdState) (r : Reader) (rc : Rec) (E : List Rcd) (off' : Nat) (after : List UInt8)
+    (progress : Prop) : StepOut → Prop
+  | .done res s' r' => r' = r ∧ s'.chunker = s1.chunker ∧ s'.mem = s1.mem ∧ GDone p E res off' after
+  | .continue s' r' rc' => r' = r ∧ s'.chunker = s1.chunker ∧ s'.mem = s1.mem ∧
+      (∃ cur', GInv p off' rc' cur' ∧ ∃ pre, E = pre ++ recordsAll p (segsOf off' rc' cur' after)) ∧
+      (progress ∨ (rc.st ≠ .skipSentinel ∧ rc'.st = .skipSentinel))
+
+theorem consult_cases (judge : Judge) (s : RdState) (r : Reader) (rc : Rec) :
+    consult judge s r rc = .done .none { s with hist := s.hist ++ [⟨rc.start, rc.stop, rc.size⟩] } r ∨
+    consult judge s r rc = .continue { s with hist := s.hist ++ [⟨rc.start, rc.stop, rc.size⟩] } r rc ∨
+    (consult judge s r rc = .continue { s with hist := s.hist ++ [⟨rc.start, rc.stop, rc.size⟩] } r
+        { rc with st := .skipRecord } ∧ judge s.hist ⟨rc.start, rc.stop, rc.size⟩ = .skipRecord) := by
+  unfold consult
+  simp only
+  cases h : judge s.hist ⟨rc.start, rc.stop, rc.size⟩ with
+  | keepGoing => right; left; rfl
+  | skipRecord => right; right; exact ⟨rfl, rfl⟩
+  | stop => left; rfl
+
+theorem recordsAll_cons (sg : Seg) (rest : List Seg) :
+    recordsAll p (sg :: rest) = contrib p (fun _ => false) sg ++ recordsAll p rest := by
+  simp [recordsAll, recordsT, atLimit]
+
+theorem g_afterBreak (hs : SplitIndep p) (off : Nat) (rc : Rec) (cur : List UInt8)
+    (hinv : GInv p off rc cur) (hbusy : rc.st ≠ .skipSentinel) (s2 : RdState) (r : Reader) :
+    (afterBreak s2 r rc = .done (.some rc.bytes rc.start off) s2 r ∧
+      contrib p (fun _ => false) ⟨cur, rc.start, off⟩ = [(rc.bytes, rc.start, off)]) ∨
+    (afterBreak s2 r rc = .continue s2 r Rec.fresh) := by
+  obtain ⟨h1, h2, h3⟩ := hinv.busy hbusy
+  have hne : rc.start ≠ rc.stop := by
+    have : 0 < cur.length := List.length_pos_iff.mpr h3
+    omega
+  unfold afterBreak
+  simp only [hne, if_false]
+  cases hst : rc.st with
+  | skipSentinel => exact absurd hst hbusy
+  | skipRecord => right; simp
+  | decodeRecord =>
+    obtain ⟨ds, hd1, hd2, hd3⟩ := hinv.dec hst
+    have hds : ds ≠ [] := by rintro rfl; exact h3 (by simpa using hd1.symm)
+    have hdp : decodePieces p [cur] = decodePieces p ds := by rw [hs ds hd2 hds, hd1]
+    have hfin := after_finish p ds rc hd3
+    simp only [reduceCtorEq, if_false]
+    cases hf : Dec.finish rc.dec with
+    | error e => right; rfl
+    | ok u =>
+      left
+      cases u
+      rw [hf] at hfin
+      refine ⟨by rw [h2], ?_⟩
+      simp only [contrib, h3, if_false, hdp, hfin]
+      rfl
+
+/-- The segment just closed (by a delimiter or the end of the stream), then
+whatever `rest` the remaining stream is expected to yield. -/
+theorem g_break (hs : SplitIndep p) (s2 s1 : RdState) (hc : s2.chunker = s1.chunker) (hm : s2.mem = s1.mem)
+    (r : Reader) (rc : Rec) (cur after : List UInt8) (off off' : Nat) (pr : Prop) (hpr : pr ∨ after = [] ∧ off' = off)
+    (hinv : GInv p off rc cur) (hst : rc.st ≠ .skipSentinel) (E : List Rcd)
+    (hE : E = contrib p (fun _ => false) ⟨cur, rc.start, off⟩ ++ recordsAll p (segScan off' [] after)) :
+    GStep p s1 r rc E off' after pr (afterBreak s2 r rc) := by
+  rcases g_afterBreak p hs off rc cur hinv hst s2 r with ⟨he, hcn⟩ | he
+  · rw [he]
+    refine ⟨rfl, hc, hm, Or.inr ⟨[], _, _, _, ?_, rfl⟩⟩
+    rw [hE, hcn]; rfl
+  · rw [he]
+    refine ⟨rfl, hc, hm, ⟨[], ginv_fresh p _, ⟨contrib p (fun _ => false) ⟨cur, rc.start, off⟩, ?_⟩⟩, ?_⟩
+    · rw [hE]; simp [segsOf, Rec.fresh]
+    · rcases hpr with h | h
+      · exact Or.inl h
+      · exact Or.inr ⟨hst, rfl⟩
+
+theorem g_onChunk (hs : SplitIndep p) (judge : Judge) (hj : JudgeOK judge) (s1 : RdState) (r : Reader)
+    (rc : Rec) (cur after : List UInt8) (off : Nat) (ch : Chunk) (hinv : GInv p off rc cur)
+    (hok : ChunkOK ch (off + ch.bytes.length) after) :
+    GStep p s1 r rc (recordsAll p (segsOf off rc cur (ch.bytes ++ after)))
+      (off + ch.bytes.length) after (ch.bytes ≠ []) (onChunk p judge s1 r rc ch) := by
+  cases ch with
+  | sentinel o =>
+    simp only [ChunkOK, Chunk.bytes] at hok
+    subst hok
+    have hb : ([FE, FD] : List UInt8) ≠ [] := by simp
+    unfold onChunk
+    have hlt : ¬ off + [FE, FD].length < 2 := by simp
+    simp only [hlt, if_false, Chunk.bytes]
+    cases hst : rc.st with
+    | decodeRecord =>
+      simp only
+      have hst' : rc.st ≠ .skipSentinel := by simp [hst]
+      obtain ⟨b1, b2, b3⟩ := hinv.busy hst'
+      refine g_break p hs { s1 with lastSentinel := off + [FE, FD].length - 2 } s1 rfl rfl r rc cur after off _ _
+        (Or.inl hb) hinv hst' _ ?_
+      simp only [segsOf, hst', if_false, List.cons_append, List.nil_append]
+      rw [segScan_sentinel, recordsAll_cons, b1]
+      rfl
+    | skipRecord =>
+      simp only
+      have hst' : rc.st ≠ .skipSentinel := by simp [hst]
+      obtain ⟨b1, b2, b3⟩ := hinv.busy hst'
+      refine g_break p hs { s1 with lastSentinel := off + [FE, FD].length - 2 } s1 rfl rfl r rc cur after off _ _
+        (Or.inl hb) hinv hst' _ ?_
+      simp only [segsOf, hst', if_false, List.cons_append, List.nil_append]
+      rw [segScan_sentinel, recordsAll_cons, b1]
+      rfl
+    | skipSentinel =>
+      obtain ⟨i1, i2, i3, i4⟩ := hinv.idle hst
+      simp only
+      have hE : recordsAll p (segsOf off rc cur ([FE, FD] ++ after)) =
+          recordsAll p (segScan (off + 2) [] after) := by
+        simp only [segsOf, hst, if_true, List.cons_append, List.nil_append]
+        rw [segScan_sentinel, recordsAll_cons]
+        simp [contrib]
+      rw [hE]
+      have hinv' : GInv p (off + 2)
+          ⟨.skipSentinel, off + [FE, FD].length, off + [FE, FD].length, rc.dec, rc.emits⟩ [] :=
+        { idle := fun _ => ⟨rfl, rfl, i3, i4⟩, busy := fun h => absurd rfl h,
+          dec := fun h => by simp at h }
+      rcases consult_cases judge { s1 with lastSentinel := off + [FE, FD].length - 2 } r
+        ⟨.skipSentinel, off + [FE, FD].length, off + [FE, FD].length, rc.dec, rc.emits⟩ with h | h | ⟨_, h⟩
+      · rw [h]; exact ⟨rfl, rfl, rfl, Or.inl rfl⟩
+      · rw [h]
+        exact ⟨rfl, rfl, rfl, ⟨[], hinv', [], by simp [segsOf]⟩, Or.inl hb⟩
+      · exact absurd h (hj _ _ rfl)
+  | eof =>
+    simp only [ChunkOK] at hok
+    subst hok
+    unfold onChunk
+    simp only [Chunk.bytes, List.length_nil, Nat.add_zero, List.nil_append]
+    by_cases hst : rc.st = .skipSentinel
+    · obtain ⟨i1, _, _, _⟩ := hinv.idle hst
+      simp only [i1, if_true]
+      exact ⟨rfl, rfl, rfl, Or.inl rfl⟩
+    · obtain ⟨b1, b2, b3⟩ := hinv.busy hst
+      have hne : rc.start ≠ rc.stop := by
+        have : 0 < cur.length := List.length_pos_iff.mpr b3
+        omega
+      simp only [hne, if_false]
+      refine g_break p hs _ s1 rfl rfl r rc cur [] off off _ (Or.inr ⟨rfl, rfl⟩) hinv hst _ ?_
+      simp only [segsOf, hst, if_false]
+      rw [segScan_nil, segScan_nil, recordsAll_cons, recordsAll_cons, b1]
+      simp [contrib, recordsAll, recordsT]
+  | data o bs =>
+    simp only [ChunkOK, Chunk.bytes] at hok
+    obtain ⟨ho, hbs, hfs⟩ := hok
+    subst ho
+    unfold onChunk
+    have hemp : bs.isEmpty = false := by cases bs with
+      | nil => exact absurd rfl hbs
+      | cons _ _ => rfl
+    simp only [hemp, Bool.false_eq_true, if_false, Chunk.bytes]
+    -- after the chunk the locals are `rc3`; whatever the judge says the invariant holds
+    have finish : ∀ (rc3 : Rec) (start : Nat), rc3.st ≠ .skipSentinel → rc3.start = start →
+        rc3.stop = off + bs.length → start + (cur ++ bs).length = off + bs.length →
+        (rc3.st = .decodeRecord → ∃ ds, ds.flatten = cur ++ bs ∧ (∀ d ∈ ds, d ≠ []) ∧ After p ds rc3) →
+        (∀ rc4 : Rec, rc4.st = .skipRecord → rc4.start = rc3.start → rc4.stop = rc3.stop →
+          GInv p (off + bs.length) rc4 (cur ++ bs)) →
+        GStep p s1 r rc (recordsAll p (segScan start (cur ++ bs) after)) (off + bs.length) after (bs ≠ [])
+          (consult judge s1 r rc3) := by
+      intro rc3 start h1 h2 h3 h4 h5 h6
+      have hg3 : GInv p (off + bs.length) rc3 (cur ++ bs) :=
+        { idle := fun h => absurd h h1, busy := fun _ => ⟨by rw [h2]; exact h4, h3, by simp [hbs]⟩, dec := h5 }
+      rcases consult_cases judge s1 r rc3 with h | h | ⟨h, _⟩
+      · rw [h]; exact ⟨rfl, rfl, rfl, Or.inl rfl⟩
+      · rw [h]
+        exact ⟨rfl, rfl, rfl, ⟨cur ++ bs, hg3, [], by simp [segsOf, h1, h2]⟩, Or.inl hbs⟩
+      · rw [h]
+        exact ⟨rfl, rfl, rfl, ⟨cur ++ bs, h6 _ rfl rfl rfl, [], by simp [segsOf, h2]⟩, Or.inl hbs⟩
+    have skipInv : ∀ (rc4 : Rec) (start : Nat), rc4.st = .skipRecord → rc4.start = start →
+        rc4.stop = off + bs.length → start + (cur ++ bs).length = off + bs.length →
+        GInv p (off + bs.length) rc4 (cur ++ bs) := by
+      intro rc4 start h1 h2 h3 h4
+      exact { idle := fun h => by simp [h1] at h, busy := fun _ => ⟨by rw [h2]; exact h4, h3, by simp [hbs]⟩,
+              dec := fun h => by simp [h1] at h }
+    -- feeding the decoder from a `DecodeRecord` state `base`
+    have decode : ∀ (base : Rec) (ds : List (List UInt8)), base.st = .decodeRecord →
+        base.start + (cur ++ bs).length = off + bs.length → ds.flatten = cur → (∀ d ∈ ds, d ≠ []) →
+        After p ds base →
+        GStep p s1 r rc (recordsAll p (segScan base.start (cur ++ bs) after)) (off + bs.length) after (bs ≠ [])
+          (consult judge s1 r { decodeChunk p base bs with stop := off + bs.length }) := by
+      intro base ds hb1 hb2 hb3 hb4 hb5
+      have hst3 : ({ decodeChunk p base bs with stop := off + bs.length } : Rec).start = base.start := by
+        simp only [decodeChunk]; split <;> rfl
+      cases hf : Dec.feedAll p .borrow base.dec bs with
+      | error ee =>
+        obtain ⟨e, es⟩ := ee
+        have e3 : ({ decodeChunk p base bs with stop := off + bs.length } : Rec) =
+            { base with st := .skipRecord, emits := base.emits ++ es, stop := off + bs.length } := by
+          simp only [decodeChunk, hf]
+        rw [e3]
+        exact finish _ base.start (by simp) rfl rfl hb2 (fun h => by simp at h)
+          (fun rc4 h1 h2 h3 => skipInv rc4 base.start h1 h2 h3 hb2)
+      | ok pr =>
+        obtain ⟨d', es⟩ := pr
+        have e3 : ({ decodeChunk p base bs with stop := off + bs.length } : Rec) =
+            { base with dec := d', emits := base.emits ++ es, stop := off + bs.length } := by
+          simp only [decodeChunk, hf]
+        rw [e3]
+        have hafter' := after_step_ok p ds base bs d' es hb5 hf
+        exact finish _ base.start (by simp [hb1]) rfl rfl hb2
+          (fun _ => ⟨ds ++ [bs], by simp [hb3], by
+            intro d hd
+            rcases List.mem_append.mp hd with h | h
+            · exact hb4 d h
+            · simp at h; subst h; exact hbs, fun more => hafter' more⟩)
+          (fun rc4 h1 h2 h3 => skipInv rc4 base.start h1 h2 h3 hb2)
+    cases hst : rc.st with
+    | skipSentinel =>
+      obtain ⟨i1, i2, i3, i4⟩ := hinv.idle hst
+      subst i2
+      simp only [if_true]
+      have hE : segsOf off rc [] (bs ++ after) = segScan off ([] ++ bs) after := by
+        simp only [segsOf, hst, if_true]
+        exact segScan_data bs off [] after hfs
+      rw [hE]
+      have hsub : off + bs.length - bs.length = off := by omega
+      have := decode { rc with start := off, stop := off, st := .decodeRecord } [] rfl (by simp) rfl (by simp)
+        (after_nil p _ i4 i3)
+      simpa [hsub] using this
+    | decodeRecord =>
+      obtain ⟨b1, b2, b3⟩ := hinv.busy (by simp [hst])
+      obtain ⟨ds, hd1, hd2, hd3⟩ := hinv.dec hst
+      simp only [hst, if_true]
+      have hE : segsOf off rc cur (bs ++ after) = segScan rc.start (cur ++ bs) after := by
+        simp only [segsOf, hst, reduceCtorEq, if_false]
+        exact segScan_data bs rc.start cur after hfs
+      rw [hE]
+      exact decode rc ds hst (by simp; omega) hd1 hd2 hd3
+    | skipRecord =>
+      obtain ⟨b1, b2, b3⟩ := hinv.busy (by simp [hst])
+      simp only [hst, reduceCtorEq, if_false]
+      have hE : segsOf off rc cur (bs ++ after) = segScan rc.start (cur ++ bs) after := by
+        simp only [segsOf, hst, reduceCtorEq, if_false]
+        exact segScan_data bs rc.start cur after hfs
+      rw [hE]
+      exact finish _ rc.start (by simp) rfl rfl (by simp; omega) (fun h => by simp at h)
+        (fun rc4 h1 h2 h3 => skipInv rc4 rc.start h1 h2 h3 (by simp; omega))
+
+theorem g_run_spec (clamp : Nat) (hclamp : 2 ≤ clamp) (t : Tuning) (block : Nat) (hs : SplitIndep p)
+    (judge : Judge) (hj : JudgeOK judge) :
+    ∀ (fuel : Nat) (s : RdState) (r : Reader) (rc : Rec) (cur : List UInt8),
+    WellBehaved r → GInv p s.chunker.offset rc cur →
+    2 * (s.chunker.buf ++ r.src).length + (if rc.st = .skipSentinel then 1 else 2) ≤ fuel →
+    WellBehaved (run clamp t p judge block fuel s r rc).2.2 ∧
+    GDone p (recordsAll p (segsOf s.chunker.offset rc cur (s.chunker.buf ++ r.src)))
+      (run clamp t p judge block fuel s r rc).1
+      (run clamp t p judge block fuel s r rc).2.1.chunker.offset
+      ((run clamp t p judge block fuel s r rc).2.1.chunker.buf ++
+        (run clamp t p judge block fuel s r rc).2.2.src) := by
+  intro fuel
+  induction fuel with
+  | zero =>
+    intro s r rc cur _ _ hf
+    exfalso; split at hf <;> omega
+  | succ fuel ih =>
+    intro s r rc cur hwb hinv hf
+    have hassert : decide (rc.start = rc.stop) = decide (rc.st = .skipSentinel) := by
+      by_cases hst : rc.st = .skipSentinel
+      · simp [hst, (hinv.idle hst).1]
+      · obtain ⟨b1, b2, b3⟩ := hinv.busy hst
+        have : 0 < cur.length := List.length_pos_iff.mpr b3
+        have : rc.start ≠ rc.stop := by omega
+        simp [hst, this]
+    have hp := pump_spec clamp hclamp t block s.chunker s.mem r hwb
+    obtain ⟨ch, hres, hsplit, hoff, hok⟩ := hp.ex
+    rw [hoff] at hok
+    have hspec := g_onChunk p hs judge hj
+      { s with chunker := (pump clamp t block s.chunker s.mem r).chunker,
+               mem := (pump clamp t block s.chunker s.mem r).mem }
+      (pump clamp t block s.chunker s.mem r).reader rc cur
+      ((pump clamp t block s.chunker s.mem r).chunker.buf ++ (pump clamp t block s.chunker s.mem r).reader.src)
+      s.chunker.offset ch hinv hok
+    rw [← hsplit] at hspec
+    have hstep : step clamp t p judge block s r rc =
+        onChunk p judge
+          { s with chunker := (pump clamp t block s.chunker s.mem r).chunker,
+                   mem := (pump clamp t block s.chunker s.mem r).mem }
+          (pump clamp t block s.chunker s.mem r).reader rc ch := by
+      unfold step
+      simp only [hassert, ne_eq, not_true_eq_false, if_false, hres]
+    unfold run
+    rw [hstep]
+    generalize onChunk p judge
+          { s with chunker := (pump clamp t block s.chunker s.mem r).chunker,
+                   mem := (pump clamp t block s.chunker s.mem r).mem }
+          (pump clamp t block s.chunker s.mem r).reader rc ch = so at hspec ⊢
+    cases so with
+    | done res s' r' =>
+      obtain ⟨h1, h2, h3, h4⟩ := hspec
+      simp only
+      subst h1
+      rw [h2]
+      simp only
+      rw [hoff]
+      exact ⟨hp.wb, h4⟩
+    | «continue» s' r' rc' =>
+      obtain ⟨h1, h2, h3, ⟨cur', hinv', pre, hE⟩, hprog⟩ := hspec
+      simp only
+      subst h1
+      have hoff' : s'.chunker.offset = s.chunker.offset + ch.bytes.length := by rw [h2]; exact hoff
+      have hbuf' : s'.chunker.buf = (pump clamp t block s.chunker s.mem r).chunker.buf := by rw [h2]
+      have hfuel : 2 * (s'.chunker.buf ++ (pump clamp t block s.chunker s.mem r).reader.src).length
+          + (if rc'.st = .skipSentinel then 1 else 2) ≤ fuel := by
+        have hl := congrArg List.length hsplit
+        rw [hbuf']
+        simp only [List.length_append] at hl hf ⊢
+        rcases hprog with hb | ⟨hb1, hb2⟩
+        · have : 0 < ch.bytes.length := List.length_pos_iff.mpr hb
+          split at hf <;> split <;> omega
+        · simp only [hb1, hb2, if_true, if_false] at hf ⊢
+          omega
+      rw [← hoff'] at hinv' hE
+      rw [← hbuf'] at hE
+      obtain ⟨hw, hd⟩ := ih s' _ rc' cur' hp.wb hinv' hfuel
+      refine ⟨hw, ?_⟩
+      rw [hE]
+      rcases hd with hn | ⟨pre', d, a, b, he, hr⟩
+      · exact Or.inl hn
+      · exact Or.inr ⟨pre ++ pre', d, a, b, by rw [he]; simp, hr⟩
+
+/-- Any judge: the records returned before the first `None` are, in order, some
+of the records the always-KeepGoing judge would have returned; and no call ever
+panics or fails. -/
+theorem g_nextSeq_spec (clamp : Nat) (hclamp : 2 ≤ clamp) (t : Tuning) (block : Option Nat)
+    (hs : SplitIndep p) (judge : Judge) (hj : JudgeOK judge) :
+    ∀ (n : Nat) (s : RdState) (r : Reader), WellBehaved r →
+    (leading (nextSeq clamp t p judge block n s r).1).Sublist
+      (recordsAll p (segScan s.chunker.offset [] (s.chunker.buf ++ r.src))) ∧
+    ∀ res ∈ (nextSeq clamp t p judge block n s r).1, res = .none ∨ ∃ d a b, res = .some d a b := by
+  intro n
+  induction n with
+  | zero => intro s r _; simp [nextSeq, leading]
+  | succ n ih =>
+    intro s r hwb
+    obtain ⟨hw, hd⟩ := g_run_spec p clamp hclamp t (block.getD Woodpile.Gen.defaultBlockSize) hs judge hj
+      (runFuel s r) s r Rec.fresh [] hwb (ginv_fresh p _)
+      (by simp only [runFuel, Rec.fresh, List.length_append, if_true]; omega)
+    have hi := ih (next clamp t p judge block s r).2.1 (next clamp t p judge block s r).2.2 hw
+    have hE : segsOf s.chunker.offset Rec.fresh [] (s.chunker.buf ++ r.src) =
+        segScan s.chunker.offset [] (s.chunker.buf ++ r.src) := by simp [segsOf, Rec.fresh]
+    rw [hE] at hd
+    simp only [nextSeq]
+    have hnext : next clamp t p judge block s r =
+        run clamp t p judge (block.getD Woodpile.Gen.defaultBlockSize) (runFuel s r) s r Rec.fresh := rfl
+    rw [← hnext] at hd
+    constructor
+    · rcases hd with hn | ⟨pre, d, a, b, he, hr⟩
+      · rw [hn]; simp [leading]
+      · rw [hr, he]
+        simp only [leading]
+        exact List.Sublist.trans (List.Sublist.cons₂ _ hi.1) (List.sublist_append_right _ _)
+    · intro res hres
+      rcases List.mem_cons.mp hres with h | h
+      · rcases hd with hn | ⟨_, d, a, b, _, hr⟩
+        · exact Or.inl (h.trans hn)
+        · exact Or.inr ⟨d, a, b, h.trans hr⟩
+      · exact hi.2 res h
+
+end Generic
+
 end Woodpile.Stream
